@@ -41,6 +41,10 @@ type keyProvider struct {
 }
 
 func (p *keyProvider) provideKey(token *jwt.Token) (interface{}, error) {
+	// a key that declares its algorithm only verifies tokens using that algorithm (RFC 7517 4.4)
+	if alg := p.key.Algorithm; alg != "" && alg != token.Method.Alg() {
+		return nil, fmt.Errorf("token alg[%s] does not match key alg[%s]", token.Method.Alg(), alg)
+	}
 	return p.key.Key, nil
 }
 
